@@ -225,7 +225,15 @@ def enumerate_paths(stmts, cap=5000):
             if isinstance(s, (ast.For, ast.While)):
                 walk(rest, evs + [Ev('loop', getattr(s, '_orig', s), False, env)], env, facts, decided)
                 body = [x for x in s.body] + [_LoopEnd()]
-                walk(body + rest, evs + [Ev('loop', getattr(s, '_orig', s), True, env)], env, facts, decided)
+                env_l, facts_l, decided_l = env, facts, decided
+                if isinstance(s, ast.For):
+                    # the loop target is bound anew: whatever the path knew about those names ends here
+                    tw = set(x.id for x in ast.walk(s.target) if isinstance(x, ast.Name))
+                    if tw:
+                        env_l = dict((k2, v2) for k2, v2 in env.items() if k2 not in tw)
+                        facts_l = dict((k2, v2) for k2, v2 in facts.items() if k2 not in tw)
+                        decided_l = dict((k2, v2) for k2, v2 in decided.items() if not (v2[1] & tw))
+                walk(body + rest, evs + [Ev('loop', getattr(s, '_orig', s), True, env)], env_l, facts_l, decided_l)
                 return
             if isinstance(s, _LoopEnd):
                 continue
